@@ -1,15 +1,57 @@
 /-
-C16 — Tables are rectangular with aligned columns.
-(first instalment; rectangularity at cluster level follows in CompositeLemmas)
+C16 — Tables are rectangular with aligned columns.   (cluster level: every atom is a cluster)
+The model of manip.MakeTable / buildTable (width arithmetic, per/rem distribution, border and header
+bars, AlignLineLeft / AlignLineCenter per cell) is proved rectangular for ALL ragged data, all integer
+widths, borders × headers, any three-token character set — no hypothesis on whitespace in cells.
 -/
 import RosedVerif.Model.InstAFacts
+import RosedVerif.Model.CompositeLemmas
 namespace RosedVerif.Props
 open RosedVerif
+variable {α : Type} [DecidableEq α] (cx : Ctx α)
 
-/-- empty data, or only empty rows, produce no table lines -/
-theorem C16_empty {α : Type} [DecidableEq α] (cx : Ctx α) (w : Int) (h b : Bool) (cs : List α) :
-    makeTable cx [] w h b cs = [] ∧ makeTable cx [[], []] w h b cs = [] := by
-  constructor <;> simp [makeTable]
+/-- every output line has the same number of clusters: the requested width, or the minimum the
+content needs when that is larger -/
+theorem C16_rectangular (htriv : ∀ s, cx.ends s = List.range' 1 s.length)
+    (data : List (List (List α))) (width : Int) (header border : Bool) (charSet : List α)
+    (h3 : charSet.length = 3) :
+    ∀ line ∈ makeTable cx data width header border charSet,
+      (line.length : Int) = max width (tableMinWidth data border) :=
+  makeTable_rect cx htriv data width header border charSet h3
+
+/-- … also for the block InsertTableOpts actually inserts (the defaulted character set always has
+three tokens at cluster level) -/
+theorem C16_rectangular_op (htriv : ∀ s, cx.ends s = List.range' 1 s.length) (h3 : cx.dCharset.length = 3)
+    (data : List (List (List α))) (width : Int) (o : Options α) :
+    ∀ line ∈ makeTable cx data width (o.withDefaults cx).headers (o.withDefaults cx).borders
+        (o.withDefaults cx).charset,
+      (line.length : Int) = max width (tableMinWidth data o.borders) :=
+  insertTableOpts_lines_rect cx htriv h3 data width o
+
+/-- the minimum width the content needs (the model's own formula, in closed form) -/
+theorem C16_min_width_border (data : List (List (List α))) :
+    tableMinWidth data true =
+      1 + sumTo (fun i => (colContent data i : Int) + 2 + 1) (tableColCount data) :=
+  tableMinWidth_border data
+theorem C16_min_width_noBorder (data : List (List (List α))) (hk : tableColCount data ≠ 0) :
+    tableMinWidth data false =
+      sumTo (fun i => (colContent data i : Int)) (tableColCount data) + 2 * ((tableColCount data : Int) - 1) :=
+  tableMinWidth_noBorder data hk
+
+/-- rows appear in order: data rows + 2 border lines + the header rule -/
+theorem C16_line_count (data : List (List (List α))) (width : Int) (header border : Bool) (charSet : List α)
+    (hd : data ≠ []) (hk : tableColCount data ≠ 0) :
+    (makeTable cx data width header border charSet).length =
+      data.length + (if border = true then 2 else 0) +
+        (if header = true then (if border = true then (if data.length > 1 then 1 else 0) else 1) else 0) :=
+  makeTable_length cx data width header border charSet hd hk
+
+/-- empty data, or only empty rows, produce no output -/
+theorem C16_empty (width : Int) (header border : Bool) (charSet : List α) :
+    makeTable cx [] width header border charSet = [] := makeTable_nil cx width header border charSet
+theorem C16_only_empty_rows (data : List (List (List α))) (width : Int) (header border : Bool)
+    (charSet : List α) (h : ∀ r ∈ data, r = []) : makeTable cx data width header border charSet = [] :=
+  makeTable_of_rows_empty cx data width header border charSet h
 
 /-- InsertTable is total on arbitrary code-point data -/
 theorem C16_total (ed : Editor Int) (p : Int) (d : List (List (List Int))) (w : Int) (o : Options Int) :
